@@ -147,6 +147,10 @@ def scen_counter(env, cfg):
     tx = env.bits('tx', n)
     flip = env.bits('f', n)
     rx = [env.ite(env.eq(f, 1), 1 - t, t) for t, f in zip(tx, flip)]
+    if cfg.get('extra'):
+        # the transmitted record is longer than the received one (a PPM link drops the bits of an incomplete last symbol):
+        # the counter compares the received bits with the first len(Rx) transmitted ones, so the rate is still k/len(Rx)
+        tx = list(tx) + list(env.bits('tail', cfg['extra']))
 
     def form(kind, xs):
         if kind == 'bs':
@@ -207,4 +211,7 @@ def configs(tier):
                 if q and 'tuple' in (ft, fr) and ft != fr:
                     continue
                 out.append((f'counter-{mod}-{ft}-{fr}', scen_counter, dict(mod=mod, n=3 if q else 4, tx_form=ft, rx_form=fr), {}))
+        for extra in ((1,) if q else (1, 2, 3)):
+            for ft, fr in (('bs', 'bs'), ('list', 'ndarray')):
+                out.append((f'counter-{mod}-{ft}-{fr}-tx-longer-by-{extra}', scen_counter, dict(mod=mod, n=3 if q else 4, tx_form=ft, rx_form=fr, extra=extra), {}))
     return out
